@@ -26,19 +26,25 @@ ID = "C07"
 READY = True
 TECHNIQUE = ("Coq proof over an executable model of OrsoTypes.parse (generated dispatch table, int()/str() of integers, UTF-8, "
              "Decimal create/quantize arithmetic, parse_iso from C08) + model/implementation correspondence evaluated in Coq")
-LEVEL_TEXT = ("Machine-checked Coq theorems over an executable model of the casts: null to null for every type of the generated table; "
-              "idempotence on typed values; INTEGER(str z) = z for every integer within the interpreter's digit limit (text, bytes, padded); "
-              "booleans decided by the generated BOOLEAN_STRINGS; VARCHAR[n]/BLOB[n] return the longest prefix of length <= n; arrays are the "
-              "element-wise cast with nulls kept; DECIMAL(p,s) returns d*10^0 exactly with exponent -s for every d of at most p digits whose "
-              "integer part fits p-s digits, s <= 28; DATE/TIMESTAMP via the proved parse_iso round trip of C08; class preservation for every "
-              "modelled input. The model is tied to orso/types.py, DecimalFactory and FlatColumn by running the real casts on native values, "
-              "str, UTF-8 bytes, padded text, the (precision, scale) grid, big integers, float corner cases and arrays of every element type and "
-              "evaluating the model on the same inputs inside Coq; a literal oracle cast(render(v)) == v supplies replayable failing inputs.")
+LEVEL_TEXT = ("Machine-checked Coq theorems over an executable model of the casts, for all inputs of the stated shape: null to null for every type "
+              "of the generated table; idempotence on typed values (timestamps to whole seconds); INTEGER(str z) = z for every integer whose str() "
+              "exists (text, UTF-8 bytes, blank-padded); booleans decided exactly by the generated BOOLEAN_STRINGS; VARCHAR[n]/BLOB[n] return the "
+              "longest prefix of length <= n for all text/bytes and n >= 1; arrays are the element-wise cast with nulls kept for all lists, tuples, "
+              "sets and loaded JSON; DECIMAL(p,s), 1<=p<=38, s<=28: every decimal of at most p digits and at most s fractional digits comes back "
+              "numerically equal, and at exponent -s when its integer part fits p-s digits (the unconditional exponent claim is refuted with a "
+              "witness); DATE/TIMESTAMP str()/isoformat() renderings via the parse_iso round trip proved for C08; DOUBLE under float(repr x) = x; "
+              "class preservation for every modelled input. The model is tied to orso/types.py, DecimalFactory and FlatColumn by running the real "
+              "casts on native values, str, UTF-8 bytes, padded text, the (precision, scale) grid, big integers, float corner cases and arrays of "
+              "every element type and evaluating the model on the same inputs inside Coq; a literal oracle cast(render(v)) == v (type-strict) "
+              "supplies replayable failing inputs.")
 LEVEL_NOTE = ("Trusted: Coq kernel + vm_compute; the hand-written models of int()/str() on integers, Decimal syntax / rounding / quantize / "
-              "__str__, str.upper/strip, truthiness (validated against CPython by the correspondence, not verified); Model/C08.v for parse_iso, "
-              "int(str) and UTF-8. Oracles (Section variables instantiated per case with what the library returned): float(str), float(bytes), "
-              "repr(float), orjson.loads, orjson.dumps, str() of containers. Not modelled: dict values, numpy / pyarrow scalars, TIME and INTERVAL "
-              "parsers (null only), tz-aware datetimes. Candidate findings F-C07-3/4/5 are guarded (see notes/C07.md).")
+              "__str__, str.upper/strip, truthiness, float(int) (validated against CPython by the correspondence, not verified); Model/C08.v "
+              "(and its proofs) for parse_iso, int(str) and UTF-8. Oracles (Section variables instantiated per case with what the library "
+              "returned): float(str), float(bytes), repr(float), orjson.loads, orjson.dumps, str() of containers. Not modelled: dict values, "
+              "numpy / pyarrow scalars, TIME and INTERVAL parsers (null only), tz-aware datetimes; int(Decimal) with |exponent| > 5000 is not "
+              "evaluated in Coq. FlatColumn defaults: proved only that a truthy default is cast without keyword arguments and a falsy one not "
+              "at all (C07_column_default_partial + two _refuted theorems); candidate findings F-C07-3/4/5 are guarded by input class "
+              "(see notes/C07.md).")
 DESIGN_REF = "DESIGN.md section 8, C07"
 COQ_IMPORTS = ("From Coq Require Import ZArith NArith.\nFrom Orso Require Import Gen.C08_Tables Model.C08 Gen.C07_Tables Model.C07.\n"
                "Open Scope Z_scope.")
@@ -58,10 +64,12 @@ TRUSTED = [
     "oracles: float(), repr(float), orjson.loads / dumps, str() of containers",
 ]
 ASSUMPTIONS = [
-    "float(repr x) = x for every float whose NaN payload is canonical; float() ignores surrounding blanks (hypotheses of C07_double_*)",
-    "orjson.loads of the JSON rendering of a list returns that list (hypothesis of C07_array_json)",
-    "integers within the interpreter's int<->str digit limit (4300 digits; sys.get_int_max_str_digits)",
-    "DECIMAL: precision >= 1 and scale <= 28 for the exponent claim",
+    "C07_double_roundtrip: float(repr f) = f for every float whose NaN payload is canonical; float() ignores surrounding ASCII blanks; "
+    "float(bytes) = float(text) on ASCII; repr(float) is ASCII (explicit premises; satisfiable: C07_double_hypotheses_satisfiable)",
+    "C07_array_json: orjson.loads of the text returned the list (explicit premise)",
+    "C07_integer_roundtrip: str(z) exists, i.e. z has at most sys.get_int_max_str_digits() = 4300 digits (regenerated)",
+    "C07_decimal_*: 1 <= precision <= 38, 0 <= scale <= 28 (regenerated cap), exponent of d >= -scale",
+    "C07_date/timestamp_roundtrip: valid dates of years 1..9999; rest on Proofs/C08.v (iso_seconds, iso_dateonly)",
 ]
 KNOWN_WITNESSES = {
     "F-C07-3": {"t": "VARCHAR", "kw": {"length": 3}, "col": True, "x": ["s", "abcdef"], "v": ["s", "abcdef"], "r": "native"},
@@ -1252,7 +1260,7 @@ def exhaustive(tier):
 
 
 def generate(rng, tier):
-    n = 1400 if tier == "quick" else 28000
+    n = 2200 if tier == "quick" else 28000
     yield from _big_ints(tier)
     yield from _str_cases(rng, 60 if tier == "quick" else 1200)
     for i in range(n):
